@@ -114,6 +114,13 @@ impl<'a> Ctx<'a> {
             } else if let Some((a, b)) = doc_range {
                 // parts of a doc comment lie within that comment's lines
                 self.obligations += 1;
+                // ... and within the text of the lines they start and end on (columns count characters)
+                let slack = if self.r.text.contains("\r\n") { 1 } else { 0 };
+                let line_len = |row: usize| self.r.text.split('\n').nth(row - 1).map(|l| l.trim_end_matches('\r').chars().count()).unwrap_or(0);
+                if s.row >= 1 && t.row >= 1 && (s.col > line_len(s.row) + 1 + slack || t.col > line_len(t.row) + 1 + slack) {
+                    let sig = format!("c09/span/doc-part/{}/beyond-the-end-of-its-line", o.kind);
+                    self.out.violate(sig, format!("file {}: {} span {}:{}..{}:{} but line {} has {} characters and line {} has {}\n--- input ---\n{}", self.file, o.kind, s.row, s.col, t.row, t.col, s.row, line_len(s.row), t.row, line_len(t.row), self.r.text));
+                }
                 if !(le(a, s) && le(t, b) && le(s, t)) {
                     let sig = format!("c09/span/doc-part/{}/outside-comment", o.kind);
                     self.out.violate(sig, format!("file {}: {} span {}:{}..{}:{} lies outside its doc comment {}:{}..{}:{}\n--- input ---\n{}", self.file, o.kind, s.row, s.col, t.row, t.col, a.row, a.col, b.row, b.col, self.r.text));
@@ -177,6 +184,41 @@ impl Family for Positions {
             }
         }
         out
+    }
+}
+
+
+// ---------------------------------------------------------------------------------------------------------------
+// Doc comments with non-ASCII text in front of their links and tags, in every commentable position.
+
+const NA_COMMENTS: [&[&str]; 12] = [
+    &[" Größe des Würfels."],
+    &[" Über {@link IS} tail"],
+    &[" 日本語 {@link IS::f} と {@link IE::EA}"],
+    &[" é {@link IS}"],
+    &[" Ünï {@link Nope} broken"],
+    &[" first line", " zweite Zeile mit Ümläuten {@link OS} end", " third"],
+    &[" Overview ö.", " @see IS"],
+    &[" Ö", " @param a: größer {@link IE} ä", " @returns x: ß {@link IS}"],
+    &[" @param a: 😀 {@link IC}", "   weiter geht’s {@link IA}"],
+    &["\u{3000}全角 {@link IS}", "\u{3000}次の行 {@link Missing}"],
+    &[" plain ascii {@link IS} then ü {@link IE}"],
+    &[" ü", " @see Nope"],
+];
+
+pub struct NonAsciiDocs;
+impl crate::model::run::ProgFamily for NonAsciiDocs {
+    fn name(&self) -> String {
+        format!("doc-comments-with-non-ascii-text/{} comments (non-ASCII text before links, tags and line ends) x 11 positions x 4 layouts", NA_COMMENTS.len())
+    }
+    fn len(&self) -> u64 {
+        NA_COMMENTS.len() as u64 * 11 * 4
+    }
+    fn get(&self, idx: u64) -> PCase {
+        let layout = [Sep::Space, Sep::Newline, Sep::CrLf, Sep::Tab][(idx % 4) as usize];
+        let pos = ((idx / 4) % 11) as usize;
+        let lines: Vec<String> = NA_COMMENTS[(idx / 44) as usize].iter().map(|s| s.to_string()).collect();
+        PCase { program: super::c16::place_doc(pos, &lines, idx % 8 >= 4), layout: Layout::uniform(layout, Commas::None), label: format!("non-ascii doc comment {} at position {pos}", idx / 44), may_warn: true }
     }
 }
 
@@ -378,6 +420,7 @@ impl DiagnosticSpans {
 
 pub fn families(tier: &str) -> Vec<Box<dyn Family>> {
     let mut v: Vec<Box<dyn Family>> = vec![Box::new(DiagnosticSpans { arity: 1 }), Box::new(DiagnosticSpans { arity: 2 })];
+    v.push(Box::new(Positions { inner: Box::new(NonAsciiDocs) }));
     v.extend(crate::model::families::program_families(tier).into_iter().map(|f| Box::new(Positions { inner: f }) as Box<dyn Family>));
     v
 }
